@@ -192,6 +192,24 @@ CLAIMS["C08"] = (
     "quantifier).",
     "DESIGN.md §2 C08")
 
+CLAIMS["C05"] = (
+    "partial evaluation of the shunting-yard decision list over the literal precedence table "
+    "(shift/reduce matrix), table/repr/branch sibling rules, abstract interpretation of steps and "
+    "of the builder's deque effects",
+    "Decides the compiler structure on the parsed source: the full shift/reduce matrix of "
+    "push_oper over {+,-,*,/,(,),max,min,consumption,production}, obtained by constant-folding "
+    "its ordered decisions with the literal table, is algebraically legal (must-reduce / must-"
+    "shift cells fixed, re-association cells free), parentheses shift/discard correctly and the "
+    "loop continues after a reduce; every table key is pushed as the step class whose __repr__ is "
+    "that key and the tokenizer's operators have precedences; every operator step computes "
+    "first-pushed OP last-pushed with exactly one result; the higher-order builder produces "
+    "( X ) op Y with Y an atom or ( Y' ) for several shapes of Y'; the evaluator applies all steps "
+    "in order on a fresh stack and requires one residual. Operator-precedence parsing is "
+    "determined by the pairwise relation, so this decides grouping for every formula; float "
+    "rounding and malformed strings are not decided.",
+    "Trusted: the legality matrix (sa/props/c05.py) and the float semantics of nandomain.py.",
+    "DESIGN.md §2 C05")
+
 PENDING_REASON = ("no static check is registered for this property yet in this revision of the "
                   "machinery (planned rules are in DESIGN.md §2); nothing is claimed for it")
 
